@@ -335,14 +335,14 @@ def value_matches(text, rendering):
 def render(obj, given=None):
     if given is not None:
         return given
-    if isinstance(obj, (dict, list)) and not any(isinstance(x, (Fn,)) for x in (obj.values() if isinstance(obj, dict) else obj)) and is_data(obj):
+    if isinstance(obj, (dict, list)) and is_data(obj):
         return myrepr(obj).replace("\\'", "'")
     return repr(obj).replace("\\'", "'")
 
 
 def is_data(v):
     if isinstance(v, dict):
-        return all(isinstance(k, str) and not k.startswith('k') and is_data(x) for k, x in v.items())
+        return all(isinstance(k, str) and is_data(x) for k, x in v.items())
     if isinstance(v, (list, tuple)):
         return all(is_data(x) for x in v)
     return isinstance(v, (int, str, float, type(None)))
